@@ -1029,6 +1029,8 @@ class PositivityC04(Monitor):
             if min(vals[0][0], vals[-1][0]) > worst[0] * (1 + 1e-12):
                 sim.probe('c04.limit_minimum_inside_range')
             self.diag_ok[key] = ok
+            self.diag_ends = getattr(self, 'diag_ends', {})
+            self.diag_ends[key] = (vals[0][0], vals[-1][0])
             self.diag_state[key] = 'ok' if ok else (
                 'interior_minimum' if ends_ok else 'end_point')
             if not ok:
@@ -1370,10 +1372,27 @@ class PositivityC04(Monitor):
                     for t in tapes.get(k, [])]
             if hi is None or any(t < lo - 1e-6 or t > hi + 1e-6
                                  for t in used):
-                if min(self_w, col.min()) < -tol or col.max() > 1 + tol:
+                neg = min(self_w, col.min()) < -tol or col.max() > 1 + tol
+                explained = True
+                key0 = 'gap' if kind == 'gap' else ai
+                ends = getattr(self, 'diag_ends', {}).get(key0)
+                if neg and hi is not None and ends and hi > lo:
+                    # can the excursion explain it?  Extrapolate the
+                    # variation of DASSH's own limit over the range linearly
+                    # to the excursion (twice, to be generous); a deficit
+                    # beyond that is judged like an in-range state
+                    exc = max(lo - min(used), max(used) - hi, 0.0)
+                    var = abs(ends[0] - ends[1]) / min(ends)
+                    allowed = 2.0 * (exc / (hi - lo)) * var + 1e-6
+                    deficit = max(-min(self_w, float(col.min())),
+                                  float(col.max()) - 1.0)
+                    explained = deficit <= allowed
+                if neg:
                     sim.probe('c04.method_probe_outside_range_negative')
-                sim.probe('c04.method_probe_outside_range')
-                return
+                if explained:
+                    sim.probe('c04.method_probe_outside_range')
+                    return
+                sim.probe('c04.method_probe_outside_range_unexplained')
             sim.probe('c04.method_probe_tdep_in_range')
             # formula vs operator is settled exactly in constant worlds and
             # the limit over the range by the diagonal invariant; what is
